@@ -22,6 +22,9 @@ def apply(b, kw):
         return tuple(kw[p] for p in b[1:])
     if op == "const":
         return b[1]
+    if op == "inc_half":  # two outputs: (p+1, (p+1)//2)
+        v = kw[b[1]] + 1
+        return (v, v // 2)
     if op == "rsubc":  # constant minus argument
         return b[2] - kw[b[1]]
     if op == "mark":
